@@ -126,7 +126,7 @@ def instances(st, rnd, quick):
     par = ancestors_map(st)
     optional = [k for k in nodes if k["min"] == 0]
     rnd.shuffle(optional)
-    for k in optional[:3 if quick else 40]:
+    for k in optional[:3 if quick else 12]:
         chosen = set([id(k)])
         p = par[id(k)]
         while p is not None:
@@ -135,7 +135,7 @@ def instances(st, rnd, quick):
         res.append(("optional:" + k["name"], gen_with(st["kids"], chosen, {}, False), True))
     groups = [k for k in nodes if k["kind"] == "GRP" and k["max"] != 1]
     rnd.shuffle(groups)
-    for g in groups[:3 if quick else 40]:
+    for g in groups[:3 if quick else 12]:
         chosen = set([id(g)])
         p = par[id(g)]
         while p is not None:
@@ -168,7 +168,7 @@ def instances(st, rnd, quick):
             res.append(("nested:%s/%s" % (g["name"], i2["name"]), gen_with(st["kids"], ch2, {id(g): 2, id(i2): 2}, False), True))
     # repeatable segments repeated
     segs = [k for k in nodes if k["kind"] == "SEG" and k["max"] != 1]
-    for s in segs[:2 if quick else 20]:
+    for s in segs[:2 if quick else 8]:
         chosen = set([id(s)])
         p = par[id(s)]
         while p is not None:
@@ -293,6 +293,14 @@ def observe(v, sid, nodes, mode, names, conforming, want, lines=None, xec=False)
     except Exception as ex:
         e["out_nofg"] = exc_name(ex)
     if want == "C08":
+        # the same text parsed under STRICT: when STRICT accepts it, the tree and its encoding are the same
+        e["tree_strict"], e["lines_strict"], e["out_strict"] = [], [], "ok"
+        try:
+            ms = parse_message(text, find_groups=True, validation_level=1)
+            e["tree_strict"] = project_tree(ms)
+            e["lines_strict"] = [cps(x) for x in ms.to_er7().split("\r")]
+        except Exception as ex:
+            e["out_strict"] = exc_name(ex)
         e["tree_val"], e["out_val"] = [], "ok"
         try:
             from hl7apy.core import Message
